@@ -281,16 +281,13 @@ local _orig_xpcall = xpcall
 local new_package = { loaders = { nil, new_loader },
                       loaded = {} }
 
+-- Note: host libraries (io, os, package, python, _G) must NOT be listed here:
+-- require() answers from package.loaded first and would hand them to modules.
 local retained_modules = {
     coroutine = true,
     math = true,
-    io = true,
-    python = true,
     utf8 = true,
-    os = true,
-    package = true,
     table = true,
-    _G = true,
     _sandbox_phase1 = true,
     -- We also keep some very frequently used modules that we know can be
     -- reused for other calls and pages
